@@ -157,6 +157,7 @@ type HarnessResult struct {
 	Err     string // engine could not process the harness (outside subset) — never a pass
 	Notes   []string
 	Trusted []string
+	RealFns []string // functions of /repo executed from their real bodies
 	Steps   int
 	Reads   int
 	ExecSec float64
@@ -181,6 +182,10 @@ func (w *World) Generate(h *Harness) (res *HarnessResult) {
 			res.Trusted = append(res.Trusted, k)
 		}
 		sort.Strings(res.Trusted)
+		for k := range e.realFns {
+			res.RealFns = append(res.RealFns, k)
+		}
+		sort.Strings(res.RealFns)
 		if r := recover(); r != nil {
 			if u, ok := r.(unsupportedErr); ok {
 				res.Err = u.Error() + " [in " + strings.Join(e.callStack, " > ") + "]"
